@@ -251,6 +251,90 @@ func c14run(t *testing.T, rep *lib.Report, h []c14step, chunk uint64, uploadAfte
 	})
 }
 
+// c14resume: build the index over history h1, upload more bundles (h2, uploads only), build again with the resume
+// option (the way an interrupted or outdated index is completed): the index must again hold exactly the referenced
+// keys, each once, and delete-unused must keep every referenced blob. Histories with content B give more than 10
+// chunks at chunk size 1, whose names are not listed in numeric order.
+func c14resume(t *testing.T, rep *lib.Report, h1, h2 []c14step, chunk uint64) {
+	lib.Bubble(t, func() {
+		cw := c14new()
+		desc := fmt.Sprintf("resume: history %v, index(chunk=%d), then %v, index(resume)", h1, chunk, h2)
+		rp := map[string]interface{}{"history": fmt.Sprint(h1), "then": fmt.Sprint(h2), "chunk_size": chunk, "resume": true}
+		for _, s := range h1 {
+			if err := cw.apply(s); err != nil {
+				panic(err)
+			}
+		}
+		time.Sleep(time.Second)
+		dir, err := os.MkdirTemp("", "verif-c14r-")
+		if err != nil {
+			panic(err)
+		}
+		defer os.RemoveAll(dir)
+		opts := func(sub string, extra ...core.PurgeOption) []core.PurgeOption {
+			return append([]core.PurgeOption{core.WithPurgeLocalStore(dir + "/" + sub), core.WithPurgeLogger(nopLogger), core.WithPurgeIndexChunkSize(chunk),
+				core.WithPurgeExtraContexts([]context2.Stores{cw.extra.Stores()}), core.WithPurgeParallel(2)}, extra...)
+		}
+		var ierr error
+		if !lib.Await(func() { _, ierr = core.PurgeBuildReverseIndex(cw.w.Stores(), opts("kv0")...) }, 24*time.Hour) || ierr != nil {
+			rep.Violate("C14|resume|first-index-build-fails", fmt.Sprintf("%s: %v", desc, ierr), rp)
+			return
+		}
+		_, _, chunks1, _ := c14readIndex(cw.w.Meta)
+		time.Sleep(time.Second)
+		for _, s := range h2 {
+			if err := cw.apply(s); err != nil {
+				panic(err)
+			}
+		}
+		time.Sleep(time.Second)
+		if !lib.Await(func() {
+			_, ierr = core.PurgeBuildReverseIndex(cw.w.Stores(), opts("kv1", core.WithPurgeResumeIndex(true))...)
+		}, 24*time.Hour) || ierr != nil {
+			rep.Violate("C14|resume|resumed-index-build-fails", fmt.Sprintf("%s: %v", desc, ierr), rp)
+			return
+		}
+		rep.Eval(2)
+		want := cw.referenced()
+		keys, headers, chunks, perr := c14readIndex(cw.w.Meta)
+		if perr != nil {
+			rep.Violate("C14|resume|index-chunk-malformed", desc+": "+perr.Error(), rp)
+			return
+		}
+		for k, n := range keys {
+			if n > 1 {
+				rep.Violate("C14|resume|index-key-listed-twice", fmt.Sprintf("%s: key %s appears %d times across %d chunks", desc, k[:8], n, chunks), rp)
+			}
+			if !want[k] {
+				rep.Violate("C14|resume|index-has-unreferenced-key", fmt.Sprintf("%s: key %s is indexed but referenced by no live bundle", desc, k[:8]), rp)
+			}
+		}
+		for k := range want {
+			if keys[k] == 0 {
+				rep.Violate("C14|resume|index-misses-referenced-key", fmt.Sprintf("%s: key %s is referenced by a live bundle but is in none of the %d chunks (%d chunks before the resumed build)", desc, k[:8], chunks, chunks1), rp)
+			}
+		}
+		if len(headers) != 1 {
+			rep.Violate("C14|resume|index-header-time", fmt.Sprintf("%s: chunk headers %v", desc, headers), rp)
+		}
+		time.Sleep(time.Second)
+		before := cw.w.Blob.Snapshot()
+		var derr error
+		if !lib.Await(func() { _, derr = core.PurgeDeleteUnused(cw.w.Stores(), opts("kv2")...) }, 24*time.Hour) || derr != nil {
+			rep.Violate("C14|resume|delete-unused-fails", fmt.Sprintf("%s: %v", desc, derr), rp)
+			return
+		}
+		rep.Eval(1)
+		after := cw.w.Blob.Snapshot()
+		for k := range before {
+			if _, still := after[k]; want[k] && !still {
+				rep.Violate("C14|resume|referenced-blob-deleted", fmt.Sprintf("%s: blob %s is referenced by a live bundle and was deleted", desc, k[:8]), rp)
+			}
+		}
+		rep.Outcome(fmt.Sprintf("resume|%v|%v|%d|chunks=%d->%d", h1, h2, chunk, chunks1, chunks))
+	})
+}
+
 func c14histories(maxDepth int) [][]c14step {
 	var alphabet []c14step
 	for _, r := range []string{"r1", "r2", "x:r3"} {
@@ -296,10 +380,26 @@ func TestC14(t *testing.T) {
 	hists := c14histories(depth)
 	type job struct {
 		h     []c14step
+		then  []c14step // non-nil: a resumed build after these further uploads
 		chunk uint64
 		after bool
 	}
 	var jobs []job
+	// resumed builds: first histories x one or two further uploads x chunk sizes
+	ups := func(cs ...string) (o []c14step) {
+		for i := 0; i+1 < len(cs); i += 2 {
+			o = append(o, c14step{"upload", cs[i], cs[i+1]})
+		}
+		return
+	}
+	for _, h1 := range [][]c14step{ups("r1", "B"), ups("r1", "B", "r2", "A'"), ups("r1", "A", "x:r3", "C"), ups("r1", "C")} {
+		for _, h2 := range [][]c14step{ups("r1", "A"), ups("r2", "A'"), ups("x:r3", "C"), ups("r2", "B"), ups("r2", "A'", "r1", "C"), ups("x:r3", "B", "r1", "A'")} {
+			for _, c := range []uint64{1, 2, 3, 7} {
+				jobs = append(jobs, job{h: h1, then: h2, chunk: c})
+			}
+		}
+	}
+	nResume := len(jobs)
 	for _, h := range hists {
 		maxKeys := 2 + 4*len(h)
 		if maxKeys > 9 {
@@ -309,11 +409,16 @@ func TestC14(t *testing.T) {
 			if !lib.Thorough() && len(h) == 2 && c > 3 && c != maxKeys {
 				continue
 			}
-			jobs = append(jobs, job{h, uint64(c), c%2 == 0})
+			jobs = append(jobs, job{h: h, chunk: uint64(c), after: c%2 == 0})
 		}
 	}
-	rep.Rule = fmt.Sprintf("(a) all histories of <=%d steps over {upload A / A' (shares a leaf with A) / C to r1, r2 or a repo of an extra context sharing the blob store; delete last bundle; squash} x every index chunk size 1..#keys+1 (alternating with/without an upload between index build and delete-unused), blobs aged one fake second: union of chunk files = exactly the referenced roots+leaves, no key twice, one header time = index time; after delete-unused the blob store = referenced + newer-than-index; (b) 2..3 PurgeLock contenders (+force, +unlock) under all interleavings; distinct = distinct (history, chunk size)", depth)
+	rep.Rule = fmt.Sprintf("(a) all histories of <=%d steps over {upload A / A' (shares a leaf with A) / C to r1, r2 or a repo of an extra context sharing the blob store; delete last bundle; squash} x every index chunk size 1..#keys+1 (alternating with/without an upload between index build and delete-unused), blobs aged one fake second: union of chunk files = exactly the referenced roots+leaves, no key twice, one header time = index time; after delete-unused the blob store = referenced + newer-than-index; (a') 4 first histories (two with a 12-leaf file: >10 chunks at chunk size 1) x 6 further upload sequences x chunk sizes {1,2,3,7}: index, more uploads, index again with the resume option: again exactly the referenced keys, each once, one header time, delete-unused keeps every referenced blob; (b) 2..3 PurgeLock contenders (+force, +unlock) under all interleavings; distinct = distinct (history, chunk size)", depth)
 	parent := lib.RunCases(t, rep, "TestC14", len(jobs), 0, 180*time.Second, func(i int) {
+		if jobs[i].then != nil {
+			c14resume(t, rep, jobs[i].h, jobs[i].then, jobs[i].chunk)
+			rep.AddStates(1, 3, 3)
+			return
+		}
 		c14run(t, rep, jobs[i].h, jobs[i].chunk, jobs[i].after)
 		rep.AddStates(1, 2, 2)
 	}, func(i int, how, output string) {
@@ -323,7 +428,8 @@ func TestC14(t *testing.T) {
 		return
 	}
 	rep.Set("histories", len(hists))
-	rep.Set("index_builds", len(jobs))
+	rep.Set("index_builds", len(jobs)+nResume)
+	rep.Set("resumed_builds", nResume)
 	rep.Sample(map[string]interface{}{"history": fmt.Sprint(jobs[len(jobs)/2].h), "chunk_size": jobs[len(jobs)/2].chunk})
 	c14locks(t, rep)
 }
